@@ -731,6 +731,11 @@ func runC14(c *Ctx) {
 	sh := c.newShard("f14", runnerFM, "caseM", "mismatchesM", "violationsM")
 	sh.limit = 60
 	c14MemProbes(c)
+	// the degenerate schedule: a query after a merge that failed, or that its caller gave up on, half-way through
+	// several groups (FileSystemDataStore as both stores): every acknowledged row exactly once
+	for i := 0; i < c.pick(12, 60); i++ {
+		c15MultiGroupMergeFault(c, filepath.Join(scratch, fmt.Sprintf("mg%d", i)), i, "C14", "c14-after-abandoned-merge")
+	}
 	plans := c14Plans()
 	reps := c.pick(20, 300)
 	n := 0
